@@ -230,6 +230,7 @@ def run(ctx):
         case, flag = meta[i]
         ctx.disagree('symmetric_smoothing flag', case, 'model says %s' % (not flag), flag)
     oracle(ctx, classes)
+    handbuilt(ctx)
 
 
 def oracle(ctx, classes):
@@ -325,6 +326,48 @@ def oracle(ctx, classes):
         if warned == expect or bool(ml.symmetric_smoothing) != expect:
             ctx.fail('cg-warning', 'flag %s, warned %s for %r/%r' % (ml.symmetric_smoothing, warned, pre, post), dict(pre=pre, post=post))
         ctx.case(('cg-warning', repr(pre), repr(post)), True)
+
+
+def handbuilt(ctx):
+    """a hierarchy assembled by hand (levels + smoothers attached directly, no change_smoothers call): whatever the flag
+    says then, it must not report symmetric smoothing for a non-Hermitian preconditioner"""
+    import pyamg
+    from pyamg.gallery import poisson
+    from pyamg.multilevel import MultilevelSolver
+    from pyamg.relaxation import relaxation as R
+    A = poisson((7, 6), format='csr')
+    np.random.seed(ctx.seed)
+    src = pyamg.smoothed_aggregation_solver(A, max_coarse=4)
+    for tag, pre, post in (('forward/forward', 'forward', 'forward'), ('forward/backward', 'forward', 'backward')):
+        levels = []
+        for L in src.levels:
+            Nl = MultilevelSolver.Level()
+            Nl.A = L.A.copy()
+            if hasattr(L, 'P'):
+                Nl.P, Nl.R = L.P.copy(), L.R.copy()
+            levels.append(Nl)
+        ml = MultilevelSolver(levels, coarse_solver='pinv')
+        for Nl in ml.levels[:-1]:
+            Nl.presmoother = lambda A_, x_, b_, sw=pre: R.gauss_seidel(A_, x_, b_, iterations=1, sweep=sw)
+            Nl.postsmoother = lambda A_, x_, b_, sw=post: R.gauss_seidel(A_, x_, b_, iterations=1, sweep=sw)
+        case = dict(handbuilt=True, smoothers=tag, flag=bool(ml.symmetric_smoothing))
+        ctx.mark(case)
+        ctx.case(('handbuilt', tag), True)
+        ctx.count('handbuilt:flag=%s' % bool(ml.symmetric_smoothing))
+        if ml.symmetric_smoothing:
+            for cyc in ('V', 'W'):
+                M = dense_M(ml, cyc)
+                asym = np.linalg.norm(M - M.conj().T) / np.linalg.norm(M)
+                if asym > 1e-10:
+                    ctx.fail('handbuilt/flag-true-not-hermitian', 'hand-assembled hierarchy (%s Gauss-Seidel): symmetric_smoothing=True but |M - M^H|/|M| = %.3g (%s-cycle)'
+                             % (tag, asym, cyc), case)
+        # the CG path must warn unless the flag is (rightly) true
+        with warnings.catch_warnings(record=True) as w:
+            warnings.simplefilter('always')
+            ml.solve(np.ones(A.shape[0]), accel='cg', maxiter=2)
+        warned = any('non-symmetric multigrid preconditioner' in str(x.message) for x in w)
+        if tag == 'forward/forward' and not warned:
+            ctx.fail('handbuilt/cg-no-warning', 'CG accelerated solve with a non-Hermitian hand-assembled preconditioner gave no warning', case)
 
 
 def search(ctx):
